@@ -11,6 +11,7 @@ import (
 
 	"github.com/superfly/litefs"
 
+	"lfsverif/internal/cluster"
 	"lfsverif/internal/common"
 )
 
@@ -126,4 +127,61 @@ func postAcquire(c *common.Ctx, root string, foreign bool) {
 	if s.IsPrimary() || live {
 		c.Violate("C08:post-acquire:still-primary", fmt.Sprintf("the lease was given back after the cluster-id request failed (the lease service names node-b now); the node still reports primary=%v, a primary-scoped context obtained now is live=%v", s.IsPrimary(), live), rep)
 	}
+}
+
+// handoffPingPong: the lease is handed from A to B and later from B back to A (what a rolling deploy with promotion does)
+// and once more to B. After every hand-over exactly the requested node is primary, the lease service names it, and the
+// node that gave the lease away stays a replica - it does not take the lease it has just passed on back again.
+func handoffPingPong(c *common.Ctx, root string) error {
+	dir := filepath.Join(root, "ping-pong")
+	_ = os.MkdirAll(dir, 0o755)
+	defer os.RemoveAll(dir)
+	clu := cluster.New(dir, 2*time.Second)
+	defer clu.Close()
+	a, err := clu.Start("a", true)
+	if err != nil {
+		return err
+	}
+	if clu.WaitPrimary(5*time.Second) == nil {
+		return fmt.Errorf("no primary")
+	}
+	b, err := clu.Start("b", true)
+	if err != nil {
+		return err
+	}
+	nodes := map[string]*cluster.Node{"a": a, "b": b}
+	waitConnected := func(from, to *cluster.Node) bool {
+		deadline := time.Now().Add(5 * time.Second)
+		for time.Now().Before(deadline) {
+			if from.Store.IsPrimary() && !to.Store.IsPrimary() {
+				if err := from.Store.Handoff(context.Background(), to.Store.ID()); err == nil {
+					return true
+				}
+			}
+			time.Sleep(20 * time.Millisecond)
+		}
+		return false
+	}
+	for round, mv := range [][2]string{{"a", "b"}, {"b", "a"}, {"a", "b"}} {
+		from, to := nodes[mv[0]], nodes[mv[1]]
+		if !waitConnected(from, to) {
+			c.Count("ping_pong_handoff_not_accepted", 1)
+			return nil
+		}
+		// the hand-over settles within a second or so
+		deadline := time.Now().Add(4 * time.Second)
+		for time.Now().Before(deadline) && !(to.Store.IsPrimary() && !from.Store.IsPrimary()) {
+			time.Sleep(5 * time.Millisecond)
+		}
+		time.Sleep(700 * time.Millisecond) // whoever wanted to take the lease back would have done so by now
+		c.Evaluations++
+		c.Distinct(fmt.Sprintf("handoff-ping-pong:%d", round))
+		rep := map[string]any{"kind": "handoff-ping-pong", "round": round, "from": mv[0], "to": mv[1], "service_log": clu.Svc.Log}
+		holder := clu.Svc.Holder()
+		if !to.Store.IsPrimary() || from.Store.IsPrimary() || holder != mv[1] {
+			c.Violate("C08:ping-pong:roles", fmt.Sprintf("hand-over %d (%s -> %s): afterwards %s reports primary=%v, %s reports primary=%v, the lease service names %q", round+1, mv[0], mv[1], mv[0], from.Store.IsPrimary(), mv[1], to.Store.IsPrimary(), holder), rep)
+			return nil
+		}
+	}
+	return nil
 }
